@@ -14,7 +14,7 @@ mod named_table;
 use named_table::NAMED;
 
 // ---------------- strict parsing against a model of the documented grammar ----------------
-const TNAMES: [&str; 10] = ["Rgb<u8>", "Rgba<u8>", "Rgb<u16>", "Rgba<u16>", "Rgb<u32>", "Rgba<u32>", "Rgb<f32>", "Rgba<f32>", "Rgb<f64>", "Rgba<f64>"];
+pub const TNAMES: [&str; 10] = ["Rgb<u8>", "Rgba<u8>", "Rgb<u16>", "Rgba<u16>", "Rgb<u32>", "Rgba<u32>", "Rgb<f32>", "Rgba<f32>", "Rgb<f64>", "Rgba<f64>"];
 
 fn accepted_lengths(t: usize) -> &'static [usize] {
     match t {
@@ -117,9 +117,9 @@ fn expected_words(t: usize, s: &str) -> Option<Vec<u64>> {
 }
 
 #[derive(Debug, Clone, Serialize, Deserialize)]
-struct StrCase {
-    target: usize,
-    s: String,
+pub struct StrCase {
+    pub target: usize,
+    pub s: String,
 }
 
 fn classify(t: usize, s: &str, obs: &mut Obs) {
@@ -141,7 +141,7 @@ fn classify(t: usize, s: &str, obs: &mut Obs) {
     obs.nontrivial_if(near && (nonhex || multibyte || sign));
 }
 
-fn strict_point(c: &StrCase, obs: &mut Obs) -> PropResult {
+pub fn strict_point(c: &StrCase, obs: &mut Obs) -> PropResult {
     let t = c.target;
     classify(t, &c.s, obs);
     let want = expected_words(t, &c.s);
@@ -353,11 +353,11 @@ fn luma_pack_point(c: &LumaPackCase, obs: &mut Obs) -> PropResult {
 
 // ---------------- names ----------------
 #[derive(Debug, Clone, Serialize, Deserialize)]
-struct NameCase {
-    s: String,
+pub struct NameCase {
+    pub s: String,
 }
 
-fn name_point(c: &NameCase, obs: &mut Obs) -> PropResult {
+pub fn name_point(c: &NameCase, obs: &mut Obs) -> PropResult {
     let want = NAMED.iter().find(|e| e.0 == c.s);
     let got = no_panic(|| palette::named::from_str(&c.s)).map_err(|p| Fail::new(format!("named::from_str({:?}) panicked: {}", c.s, p)))?;
     obs.nontrivial_if(want.is_none() && NAMED.iter().any(|e| e.0.eq_ignore_ascii_case(c.s.trim()) || (c.s.len() > 2 && (e.0.starts_with(&c.s) || c.s.starts_with(e.0)))));
